@@ -35,15 +35,17 @@ structure Cx where
 
 def bytesOf (s : String) : List Nat := s.toUTF8.toList.map (·.toNat)
 
-/-- `checkSemantics` + `checkSemanticsOfExprNode` for the text after one `${{`: the type, the lexer's offset, the diagnostics -/
+/-- `checkSemanticsOfExprNode`: the semantic check of a parsed placeholder under the scope in effect -/
+def checkParsed (cx : Cx) (key : String) (untrusted : Bool) (pe : AL.Parse.Expr) (off : Nat) : Option (Ty × Nat) × List SemaErr :=
+  let r := check (mkEnv cx.lower cx.hdr cx.jobsTy cx.st key) (toE cx.lower pe)
+  let u := if untrusted then (AL.Insecure.run AL.Gen.untrustedRoots r.evs).map fun paths => err "untrusted" paths else []
+  let errs := r.errs ++ u
+  if errs.isEmpty then (some (r.ty, off), []) else (none, errs)
+
+/-- `checkSemantics` for the text after one `${{`: the type, the lexer's offset, the diagnostics -/
 def checkOne (cx : Cx) (key : String) (untrusted : Bool) (rest : List Nat) : Option (Ty × Nat) × List SemaErr :=
-  let syms := decodeUtf8 rest
-  match AL.Lex.lexExpression syms, AL.Parse.parseToks (AL.Lex.tokens syms) with
-  | .ok (_, off), .ok pe =>
-    let r := check (mkEnv cx.lower cx.hdr cx.jobsTy cx.st key) (toE cx.lower pe)
-    let u := if untrusted then (AL.Insecure.run AL.Gen.untrustedRoots r.evs).map fun paths => err "untrusted" paths else []
-    let errs := r.errs ++ u
-    if errs.isEmpty then (some (r.ty, off), []) else (none, errs)
+  match AL.Lex.lexExpression (decodeUtf8 rest), AL.Parse.parseToks (AL.Lex.tokens (decodeUtf8 rest)) with
+  | .ok (_, off), .ok pe => checkParsed cx key untrusted pe off
   | _, _ => (none, [err "syntax-error" []])
 
 /-- the loop of `checkExprsIn`; `none` = `ok` is false -/
@@ -356,34 +358,40 @@ def actionOutputsTy (spec : Option Str) : Ty :=
     else if s.value.startsWith "actions/github-script@" then emptyLoose
     else (popularOutputs s.value).getD mapOfString
 
+/-- the `switch e := n.Exec.(type)` of `VisitStep`: diagnostics and the action spec -/
+def stepExec (cx : Cx) : Exec → List Diag × Option Str
+  | .run e =>
+    (checkScriptString cx e.run "jobs.<job_id>.steps.run" ++ checkString cx e.shell "" ++
+      checkString cx e.workingDirectory "jobs.<job_id>.steps.working-directory", none)
+  | .action e =>
+    (checkString cx e.uses "" ++
+      ((e.inputs.getD []).flatMap fun kv =>
+        if (match e.uses with | some u => u.value.startsWith "actions/github-script@" | none => false) && kv.1 = "script" then
+          checkScriptString cx (some kv.2.value) "jobs.<job_id>.steps.with"
+        else checkString cx (some kv.2.value) "jobs.<job_id>.steps.with") ++
+      checkString cx e.entrypoint "jobs.<job_id>.steps.with" ++ checkString cx e.args "jobs.<job_id>.steps.with", e.uses)
+  | .none => ([], none)
+
+/-- everything `VisitStep` checks before it looks at the id -/
+def stepDiags (cx : Cx) (n : Step) : List Diag :=
+  checkString cx n.name "jobs.<job_id>.steps.name" ++ checkIfCondition cx n.cond "jobs.<job_id>.steps.if" ++
+  (stepExec cx n.exec).1 ++
+  checkEnv cx n.env "jobs.<job_id>.steps.env" ++ checkBool cx n.continueOnError "jobs.<job_id>.steps.continue-on-error" ++
+  checkFloat cx n.timeoutMinutes "jobs.<job_id>.steps.timeout-minutes"
+
 /-- `VisitStep`: the diagnostics of the step and the steps type afterwards -/
 def visitStep (cx : Cx) (n : Step) : Cx × List Diag :=
-  let d1 := checkString cx n.name "jobs.<job_id>.steps.name" ++ checkIfCondition cx n.cond "jobs.<job_id>.steps.if"
-  let (d2, spec) : List Diag × Option Str := match n.exec with
-    | .run e =>
-      (checkScriptString cx e.run "jobs.<job_id>.steps.run" ++ checkString cx e.shell "" ++
-        checkString cx e.workingDirectory "jobs.<job_id>.steps.working-directory", none)
-    | .action e =>
-      (checkString cx e.uses "" ++
-        ((e.inputs.getD []).flatMap fun kv =>
-          if (match e.uses with | some u => u.value.startsWith "actions/github-script@" | none => false) && kv.1 = "script" then
-            checkScriptString cx (some kv.2.value) "jobs.<job_id>.steps.with"
-          else checkString cx (some kv.2.value) "jobs.<job_id>.steps.with") ++
-        checkString cx e.entrypoint "jobs.<job_id>.steps.with" ++ checkString cx e.args "jobs.<job_id>.steps.with", e.uses)
-    | .none => ([], none)
-  let d3 := checkEnv cx n.env "jobs.<job_id>.steps.env" ++ checkBool cx n.continueOnError "jobs.<job_id>.steps.continue-on-error" ++
-    checkFloat cx n.timeoutMinutes "jobs.<job_id>.steps.timeout-minutes"
   match n.id with
-  | none => (cx, d1 ++ d2 ++ d3)
+  | none => (cx, stepDiags cx n)
   | some id =>
     let dyn := AL.Rules.containsExpr id
     let d4 := if dyn then checkString cx (some id) "" else []
     let stepsTy := cx.st.stepsTy.map fun t =>
       let t := if dyn then loosen t else t
       match t with
-      | .obj ps m => .obj (Ty.setProp (cx.lower id.value) (.obj [("conclusion", .string), ("outcome", .string), ("outputs", actionOutputsTy spec)] none) ps) m
+      | .obj ps m => .obj (Ty.setProp (cx.lower id.value) (.obj [("conclusion", .string), ("outcome", .string), ("outputs", actionOutputsTy (stepExec cx n.exec).2)] none) ps) m
       | t => t
-    ({ cx with st := { cx.st with stepsTy := stepsTy } }, d1 ++ d2 ++ d3 ++ d4)
+    ({ cx with st := { cx.st with stepsTy := stepsTy } }, stepDiags cx n ++ d4)
 
 def visitSteps (cx : Cx) : List Step → Cx × List Diag
   | [] => (cx, [])
@@ -423,51 +431,68 @@ def checkWorkflowCall (cx : Cx) (c : Option WorkflowCall) : List Diag :=
       ((c.inputs.getD []).flatMap fun kv => checkString cx (some kv.2.value) "jobs.<job_id>.with.<with_id>") ++
       ((c.secrets.getD []).flatMap fun kv => checkString cx (some kv.2.value) "jobs.<job_id>.secrets.<secrets_id>")
 
+def runsOnDiags (cx : Cx) (r : Option Runner) : List Diag :=
+  match r with
+  | none => []
+  | some r =>
+    (match r.labelsExpr with
+     | some e =>
+       let t := checkOneExpression cx (some e) "runner label at \"runs-on\" section" "jobs.<job_id>.runs-on"
+       (match t.1 with
+        | some (.arr ..) => t.2 | some .string => t.2 | some .any => t.2
+        | some ty => t.2 ++ at_ e [err "runs-on-type" [tyStr ty]]
+        | none => t.2)
+     | none => (r.labels.getD []).flatMap fun l => checkString cx (some l) "jobs.<job_id>.runs-on") ++
+    checkString cx r.group "jobs.<job_id>.runs-on"
+
+def strategyDiags (cx : Cx) (s : Option Strategy) : List Diag :=
+  match s with
+  | some s => checkBool cx s.failFast "jobs.<job_id>.strategy" ++ checkInt cx s.maxParallel "jobs.<job_id>.strategy"
+  | none => []
+
+def servicesDiags (cx : Cx) (s : Option Services) : List Diag :=
+  match s with
+  | some s =>
+    (checkObjectExpression cx s.expr "services" "jobs.<job_id>.services").2 ++
+    ((s.value.getD []).flatMap fun kv => checkContainer cx (some kv.2.container) "jobs.<job_id>.services" "<service_id>")
+  | none => []
+
+/-- `VisitJobPre` after the matrix: everything checked under the job's scope before its steps -/
+def jobPre (cx : Cx) (n : Job) : List Diag :=
+  checkString cx n.name "jobs.<job_id>.name" ++ checkStrings cx n.needs "" ++ runsOnDiags cx n.runsOn ++
+  checkConcurrency cx n.concurrency "jobs.<job_id>.concurrency" ++ checkEnv cx n.env "jobs.<job_id>.env" ++
+  checkDefaults cx n.defaults "jobs.<job_id>.defaults.run" ++ checkIfCondition cx n.cond "jobs.<job_id>.if" ++
+  strategyDiags cx n.strategy ++
+  checkBool cx n.continueOnError "jobs.<job_id>.continue-on-error" ++ checkFloat cx n.timeoutMinutes "jobs.<job_id>.timeout-minutes" ++
+  checkContainer cx n.container "jobs.<job_id>.container" "" ++ servicesDiags cx n.services ++
+  checkWorkflowCall cx n.workflowCall
+
+/-- `VisitJobPost` -/
+def jobPost (cx : Cx) (n : Job) : List Diag :=
+  (match n.environment with
+   | some e => checkString cx e.name "jobs.<job_id>.environment" ++ checkString cx e.url "jobs.<job_id>.environment.url"
+   | none => []) ++
+  ((n.outputs.getD []).flatMap fun kv => checkString cx (some kv.2.value) "jobs.<job_id>.outputs.<output_id>")
+
+/-- the matrix of the job: its type (if any) and its diagnostics -/
+def jobMatrix (cx : Cx) (isNum : IsNumber) (n : Job) : Option Ty × List Diag :=
+  match n.strategy with
+  | some s =>
+    (match s.matrix with
+     | some m => let r := checkMatrix cx isNum m; (some r.1, r.2)
+     | none => (none, []))
+  | none => (none, [])
+
 /-- `VisitJobPre`, the steps, `VisitJobPost` -/
 def visitJob (cx0 : Cx) (isNum : IsNumber) (jobs : List (String × Job)) (n : Job) : List Diag :=
   let cx1 : Cx := { cx0 with st := { cx0.st with needsTy := some (needsTy cx0.lower jobs n) } }
-  let (cx2, dm) : Cx × List Diag := match n.strategy with
-    | some s =>
-      (match s.matrix with
-       | some m => let r := checkMatrix cx1 isNum m; ({ cx1 with st := { cx1.st with matrixTy := some r.1 } }, r.2)
-       | none => (cx1, []))
-    | none => (cx1, [])
-  let cx := cx2
-  let dRunsOn := match n.runsOn with
-    | none => []
-    | some r =>
-      (match r.labelsExpr with
-       | some e =>
-         let t := checkOneExpression cx (some e) "runner label at \"runs-on\" section" "jobs.<job_id>.runs-on"
-         (match t.1 with
-          | some (.arr ..) => t.2 | some .string => t.2 | some .any => t.2
-          | some ty => t.2 ++ at_ e [err "runs-on-type" [tyStr ty]]
-          | none => t.2)
-       | none => (r.labels.getD []).flatMap fun l => checkString cx (some l) "jobs.<job_id>.runs-on") ++
-      checkString cx r.group "jobs.<job_id>.runs-on"
-  let pre :=
-    dm ++ checkString cx n.name "jobs.<job_id>.name" ++ checkStrings cx n.needs "" ++ dRunsOn ++
-    checkConcurrency cx n.concurrency "jobs.<job_id>.concurrency" ++ checkEnv cx n.env "jobs.<job_id>.env" ++
-    checkDefaults cx n.defaults "jobs.<job_id>.defaults.run" ++ checkIfCondition cx n.cond "jobs.<job_id>.if" ++
-    (match n.strategy with
-     | some s => checkBool cx s.failFast "jobs.<job_id>.strategy" ++ checkInt cx s.maxParallel "jobs.<job_id>.strategy"
-     | none => []) ++
-    checkBool cx n.continueOnError "jobs.<job_id>.continue-on-error" ++ checkFloat cx n.timeoutMinutes "jobs.<job_id>.timeout-minutes" ++
-    checkContainer cx n.container "jobs.<job_id>.container" "" ++
-    (match n.services with
-     | some s =>
-       (checkObjectExpression cx s.expr "services" "jobs.<job_id>.services").2 ++
-       ((s.value.getD []).flatMap fun kv => checkContainer cx (some kv.2.container) "jobs.<job_id>.services" "<service_id>")
-     | none => []) ++
-    checkWorkflowCall cx n.workflowCall
+  let mx := jobMatrix cx1 isNum n
+  let cx : Cx := match mx.1 with
+    | some t => { cx1 with st := { cx1.st with matrixTy := some t } }
+    | none => cx1
   let cxS : Cx := { cx with st := { cx.st with stepsTy := some emptyStrict } }
   let rs := visitSteps cxS (n.steps.getD [])
-  let post :=
-    (match n.environment with
-     | some e => checkString rs.1 e.name "jobs.<job_id>.environment" ++ checkString rs.1 e.url "jobs.<job_id>.environment.url"
-     | none => []) ++
-    ((n.outputs.getD []).flatMap fun kv => checkString rs.1 (some kv.2.value) "jobs.<job_id>.outputs.<output_id>")
-  pre ++ rs.2 ++ post
+  mx.2 ++ jobPre cx n ++ rs.2 ++ jobPost rs.1 n
 
 /-! ### the workflow -/
 
